@@ -11,7 +11,19 @@ os.makedirs(sd, exist_ok=True)
 for m in sorted(glob.glob(os.path.join(wt, "_mutants", "m*"))):
     if not os.path.exists(os.path.join(m, "patch.diff")):
         continue
-    c = subprocess.run([os.path.join(root, "tools/confirm_mutant.sh"), wt, m, crate] + extra, stdout=subprocess.PIPE, stderr=subprocess.STDOUT)
+    # per-mutant crate / features announced in notes.md ("CRATE: name", "FEATURES: simple-relay")
+    crate_m, extra_m = crate, list(extra)
+    try:
+        for line in open(os.path.join(m, "notes.md")):
+            mm = re.match(r"\s*\**CRATE:\**\s*`?([\w-]+)`?", line)
+            if mm:
+                crate_m = mm.group(1)
+            mm = re.match(r"\s*\**FEATURES:\**\s*`?([\w-]+)`?", line)
+            if mm and mm.group(1).lower() not in ("none", "no") and not extra_m and "cfg" not in line:
+                extra_m = ["--features", mm.group(1)]
+    except OSError:
+        pass
+    c = subprocess.run([os.path.join(root, "tools/confirm_mutant.sh"), wt, m, crate_m] + extra_m, stdout=subprocess.PIPE, stderr=subprocess.STDOUT)
     conf = c.stdout.decode().strip().splitlines()[-1] if c.stdout else ""
     print(conf, flush=True)
     if c.returncode != 0:
@@ -35,7 +47,7 @@ for m in sorted(glob.glob(os.path.join(wt, "_mutants", "m*"))):
     meta = {"property": prop, "origin": "independent sub-agent given only the property text and a scratch worktree",
             "breaks": "see notes.md", "notes_head": notes[:3],
             "needs_to_manifest": "see notes.md (trigger section)",
-            "confirmed": conf + " ; demo: cargo test -p %s --offline --test demo %s (demo.rs dropped into crates/%s/tests/)" % (crate, " ".join(extra), crate),
+            "confirmed": conf + " ; demo: cargo test -p %s --offline --test demo %s (demo.rs dropped into crates/%s/tests/)" % (crate_m, " ".join(extra_m), crate_m),
             "ran": "tools/try_seed.sh %s seeded/%s/m%d/patch.diff" % (prop, prop, k),
             "result": result, "check_output": [l for l in out.splitlines() if l.strip()][-6:]}
     json.dump(meta, open(os.path.join(dst, "meta.json"), "w"), indent=1)
